@@ -804,6 +804,34 @@ func (g *gramCtx) leafCheck(r *gRun, out gv, pd string) []string {
 		if !ok {
 			continue
 		}
+		if bc, isCat := v.(gBytesCat); isCat {
+			// concatenation: every part is the text of a token stored in the node, in slot order;
+			// a literal part must be the spelling of a single-character terminal stored there
+			var toks []*gObj
+			for _, it := range g.Layout[typeName(o.T)] {
+				if it.Kind == "tok" {
+					if rf, ok := o.Fields[it.Slot].(gRef); ok {
+						toks = append(toks, rf.Obj)
+					}
+				}
+			}
+			okc := len(toks) == len(bc.Parts)
+			for k := 0; okc && k < len(toks); k++ {
+				switch pt := bc.Parts[k].(type) {
+				case gBytes:
+					okc = pt.Obj == toks[k] && pt.Field == "Value"
+				case gStr:
+					d := toks[k].Dollar
+					okc = d > 0 && r.rule.RHS[d-1] == "'"+pt.V+"'"
+				default:
+					okc = false
+				}
+			}
+			if !okc {
+				bad = append(bad, fmt.Sprintf("[path: %s] %s.Value = %s is not the text of the node's tokens in order", pd, o.Origin, describeG(v)))
+			}
+			continue
+		}
 		b, isB := v.(gBytes)
 		if !isB || b.Field != "Value" {
 			if _, isNil := v.(gNil); isNil {
@@ -988,4 +1016,95 @@ func debugGramCheck(name string, classes []string) int {
 		fmt.Printf("  %-14s %d obligations, %d failed\n", k, cnt[k][0], cnt[k][1])
 	}
 	return 0
+}
+
+// ---------------------------------------------------------------------------
+// property drivers
+
+type gramRun struct {
+	G    *gramCtx
+	GP   *gramParser
+	Res  *gramResult
+}
+
+// addGram runs E-GRAM over both grammars with the requested obligation classes.
+func (c *CheckCtx) addGram(want gramWant) map[string]*gramRun {
+	out := map[string]*gramRun{}
+	for _, name := range []string{"php7", "php5"} {
+		gp, err := loadGramParser(c.W, name)
+		if err != nil {
+			c.addOb("internal/"+name+"/subset/grammar-loads", "subset", "", false, err.Error())
+			continue
+		}
+		g := newGramCtx(c.W, gp)
+		for _, p := range g.Problems {
+			c.addOb("internal/"+name+"/subset/layouts: "+p, "subset", "", false, p)
+		}
+		res := g.checkGrammar(c, gp, want)
+		out[name] = &gramRun{g, gp, res}
+		if len(res.Script.Obls) > 0 {
+			c.Reports = append(c.Reports, &FuncReport{Name: "internal/" + name + ".grammar-actions", Pkg: gp.Pkg, Key: "grammar-actions", Script: res.Script})
+		}
+		var bounded []string
+		for sym := range gp.Explicit {
+			bounded = append(bounded, sym)
+		}
+		sort.Strings(bounded)
+		info := map[string]interface{}{"rules": res.Rules, "paths": res.Paths, "nt_fixpoint_rounds": res.Rounds, "non_terminal_contracts_inferred": len(res.NTs),
+			"unreachable_rules": res.Skipped, "smt_position_obligations": len(res.Script.Obls)}
+		if len(bounded) > 0 {
+			info["bounded_list_symbols"] = bounded
+			c.Bounded = append(c.Bounded, BoundedCheck{Name: "internal/" + name + " member-access chain rules", Bound: fmt.Sprintf("lists of the symbols %s are enumerated element by element up to %d elements (loops over them unrolled); obligations of rules that consume them hold for these lengths only", strings.Join(bounded, ", "), gramListBound), Cases: res.Paths})
+		}
+		c.CoverageExtra["gram:"+name] = info
+		if len(c.Samples) < 6 {
+			if ni := res.NTs["while_statement"]; ni != nil {
+				c.Samples = append(c.Samples, map[string]interface{}{"grammar": name, "inferred_contract_of": "while_statement", "contract": ni.String()})
+			}
+		}
+	}
+	c.assume("goyacc LR driver: a stack slot holds a value produced for the symbol that labels its state; distinct stack slots hold disjoint trees (induction hypothesis of the linear obligations); the driver's own loop is not verified")
+	c.assume("E-GRAM abstract interpreter, non-terminal contract inference and yield normaliser are part of the trusted base (guarded by the seeded-change corpus)")
+	return out
+}
+
+func (c *CheckCtx) gramPairs(runs map[string]*gramRun) {
+	a, b := runs["php7"], runs["php5"]
+	if a == nil || b == nil {
+		return
+	}
+	norm := func(ss []string) []string {
+		var out []string
+		for _, s := range ss {
+			s = strings.ReplaceAll(s, "internal/php7.", "")
+			s = strings.ReplaceAll(s, "internal/php5.", "")
+			out = append(out, s)
+		}
+		sort.Strings(out)
+		return out
+	}
+	n := 0
+	for _, sig := range sortedKeys(a.Res.PairSigs) {
+		pb, ok := b.Res.PairSigs[sig]
+		if !ok {
+			continue
+		}
+		n++
+		ra, rb := norm(a.Res.PairSigs[sig]), norm(pb)
+		same := len(ra) == len(rb)
+		var diff []string
+		if same {
+			for i := range ra {
+				if ra[i] != rb[i] {
+					same = false
+					diff = append(diff, "php7: "+truncate(ra[i], 400), "php5: "+truncate(rb[i], 400))
+					break
+				}
+			}
+		} else {
+			diff = append(diff, fmt.Sprintf("php7 has %d paths, php5 has %d", len(ra), len(rb)))
+		}
+		c.addOb("grammars/pair/"+sig, "pair", "", same, "the shared production builds different results in the two grammars:\n"+strings.Join(diff, "\n"))
+	}
+	c.CoverageExtra["shared_productions"] = n
 }
